@@ -3,7 +3,8 @@
 Model: arithmetic over the prime field GF(P) with a summation binder and a let binder (language Lm of the harness crate):
     mvar s      -> env[s]
     madd a b    -> a + b          mmul a b -> a * b
-    msum $x b   -> sum over all v in GF(P) of b with x := v
+    msum $x b   -> sum over v in SUM_RANGE = {0, 1} of b with x := v   (a proper subset of the field: summing over all of GF(3) would make
+                   the sum of any constant and the sum of the identity both 0, i.e. blind to a bound variable replaced by a constant)
     mlet $x b t -> b with x := value of t
 Because the field is finite, a class with k parameter slots denotes a table of P**k values, and "two e-nodes denote the same function" is
 decided exhaustively over all environments, not by sampling.
@@ -15,6 +16,7 @@ import itertools
 from . import oracle as O
 
 P = 3
+SUM_RANGE = (0, 1)
 MSIG = {'mvar': 's', 'madd': 'cc', 'mmul': 'cc', 'msum': 'bc', 'mlet': 'bcc'}
 
 class Incomplete(Exception): pass
@@ -52,7 +54,7 @@ def eval_node(tables, classes, node, env, p=P):
     if op == 'mmul': return (child_value(tables, classes, a[0], env) * child_value(tables, classes, a[1], env)) % p
     if op == 'msum':
         x, b = a; tot = 0
-        for v in range(p):
+        for v in SUM_RANGE:
             e2 = dict(env); e2[x] = v; tot += child_value(tables, classes, b, e2)
         return tot % p
     if op == 'mlet':
@@ -127,7 +129,7 @@ def eval_term(t, env, p=P):
     if op == 'mmul': return (eval_term(a[0], env, p) * eval_term(a[1], env, p)) % p
     if op == 'msum':
         tot = 0
-        for v in range(p):
+        for v in SUM_RANGE:
             e2 = dict(env); e2[a[0]] = v; tot += eval_term(a[1], e2, p)
         return tot % p
     if op == 'mlet':
